@@ -21,6 +21,29 @@ def _ks(v):
     return norm(v) if v is not None else ()
 
 
+def _tie_order(got_rows, want_rows, name, what, lg, lw) -> str:
+    """Entries on one StartTime take effect in listing order (the last one stays in force): where the reference side has
+    several entries on exactly one whole-millisecond time, the other side lists the same values in the same order.
+    Only judged when every time on the reference side is a whole number (writing truncates to milliseconds, which can
+    create ties of its own)."""
+    def seqs(rows):
+        d = {}
+        for r in rows:
+            t, v = r.get("offset"), r.get(name)
+            if not _num_ok(t) or v is None or v is NAN:
+                return None
+            d.setdefault(float(t), []).append(float(v))
+        return d
+
+    w, g = seqs(want_rows), seqs(got_rows)
+    if w is None or g is None or any(not float(t).is_integer() for t in w):
+        return ""
+    for t, vs in w.items():
+        if len(vs) > 1 and len(set(vs)) > 1 and g.get(t) is not None and sorted(g[t]) == sorted(vs) and g[t] != vs:
+            return f"{what}: on StartTime {t:g} {lw} {vs[:6]} (in force afterwards: {vs[-1]}), {lg} {g[t][:6]} (in force afterwards: {g[t][-1]})"
+    return ""
+
+
 @game_io
 class QuaIO(GameIO):
     name = "qua"
@@ -94,6 +117,9 @@ class QuaIO(GameIO):
         out.append(first_mismatch("holds read from the document", _rows(a, "holds"), den["holds"], note_ok, "read", "declared"))
         out.append(first_mismatch("timing points read from the document", _rows(a, "bpms"), den["bpms"], val_ok("bpm"), "read", "declared"))
         out.append(first_mismatch("scroll velocities read from the document", _rows(a, "svs"), den["svs"], val_ok("multiplier"), "read", "declared"))
+        if not [x for x in out if x]:
+            out.append(_tie_order(_rows(a, "svs"), den["svs"], "multiplier", "scroll velocities", "read", "the document lists"))
+            out.append(_tie_order(_rows(a, "bpms"), den["bpms"], "bpm", "timing points", "read", "the document lists"))
         m = a["meta"]
         for f, v in den["meta"].items():
             if not eqv(m.get(f, NAN), norm(v)):
@@ -118,6 +144,9 @@ class QuaIO(GameIO):
         out.append(first_mismatch("holds", den["holds"], _rows(a, "holds"), hold_ok, "in the written document", "in the chart"))
         out.append(first_mismatch("timing points", den["bpms"], _rows(a, "bpms"), val_ok("bpm"), "in the written document", "in the chart"))
         out.append(first_mismatch("scroll velocities", den["svs"], _rows(a, "svs"), val_ok("multiplier"), "in the written document", "in the chart"))
+        if not [x for x in out if x]:
+            out.append(_tie_order(den["svs"], _rows(a, "svs"), "multiplier", "scroll velocities", "the written document lists", "the chart lists"))
+            out.append(_tie_order(den["bpms"], _rows(a, "bpms"), "bpm", "timing points", "the written document lists", "the chart lists"))
         m = a["meta"]
         for f, v in den["meta"].items():
             if f == "song_preview_time":
